@@ -8,47 +8,49 @@
 From Coq Require Import Permutation.
 From LY Require Import Base Tree RfcValid ValidateImpl ValidP.
 
-(* The FULL statement (kept visible): for every well-formed schema and every tree with arbitrary LYD_NEW / LYD_DEFAULT
-   flags, whose values are of their types and whose list entries have their keys, validation succeeds iff the explicit
-   content satisfies every rule. It is FALSE for the code as it is: see C02_validate_iff_rfc_refuted. *)
+(* The statement for trees with ARBITRARY LYD_NEW / LYD_DEFAULT flags (kept visible): for every well-formed schema and
+   every such tree whose values are of their types and whose list entries have their keys, validation succeeds iff the
+   explicit content satisfies every rule. It is FALSE: validation is incremental by design, lyd_validate_new() looks for
+   duplicates only among nodes flagged LYD_NEW. *)
 Definition C02_validate_iff_rfc : Prop := validate_iff_rfc_flags_statement.
 
-(* NON-fresh trees: lyd_validate_new() looks for duplicates only among nodes flagged LYD_NEW. Witness (the tree libyang
-   builds by lyd_unlink_tree + lyd_insert_sibling of an already validated leaf into another list entry that holds that
-   leaf): list l {key k; leaf a}, entries k=1 and k=2 where entry 2 has two instances of a, no node flagged new:
-   impl_validate = Ok although rfc_single fails (ValidP.w1_accepts / w1_invalid). Finding moved-node-dup-unchecked. *)
+(* Witness: list l {key k; leaf a}, entries k=1 and k=2 where entry 2 has two instances of a and NO node is flagged new:
+   impl_validate = Ok although rfc_single fails (ValidP.w1_accepts / w1_invalid; with the flags set: EDup, w1_new_rejected).
+   Until 06232b2 the public API built exactly this tree (lyd_unlink_tree + lyd_insert_sibling of a validated leaf, former
+   finding moved-node-dup-unchecked); since then lyd_insert_* flag the inserted node, so that the statement remains a
+   fact about un-flagged trees (which only code that manipulates the flags or the links itself can build) - the
+   correspondence run checks on every edited tree that the verdict is the RFC verdict of the result. *)
 Theorem C02_validate_iff_rfc_refuted : ~ C02_validate_iff_rfc.
 Proof. exact validate_iff_rfc_flags_refuted. Qed.
 Print Assumptions C02_validate_iff_rfc_refuted.
 
-(* A second, independent witness with LYD_DEFAULT flags: a default leaf of the default case of a choice NESTED in a case
-   survives the removal of the last explicit node of that outer case (lyd_validate_autodel_case_dflt looks at the
-   innermost case only) and then satisfies the outer MANDATORY choice: the tree is accepted, its explicit content parsed
-   afresh is rejected with missing-choice (ValidP.w3_facts). Finding stale-nested-default-case. *)
-Theorem C02_stale_default_refuted : ~ C02_validate_iff_rfc.
-Proof. exact stale_default_refuted. Qed.
-Print Assumptions C02_stale_default_refuted.
-
-(* FRESH trees (what a parser hands over: every node new, none default, no empty non-presence container), schemas in
-   which no unique leaf with a default lies below a presence container or inside a case: parsing with validation
-   succeeds iff the instance satisfies every modelled RFC rule. "partial": the fragment, fresh trees, uniq_plain. *)
+(* FRESH trees (what a parser hands over: every node new, none default, no empty non-presence container): parsing with
+   validation succeeds iff the instance satisfies every modelled RFC rule. "partial": the fragment and fresh trees. *)
 Theorem C02_validate_iff_rfc_partial :
   forall (ty : sid -> bytes -> bool) (vs : vschema) (f : forest),
-    vschema_ok vs = true -> uniq_plain vs = true -> fresh vs f = true ->
+    vschema_ok vs = true -> fresh vs f = true ->
     (impl_parse_validate vs ty f = VOk <-> rfc_valid ty vs f = true).
 Proof. exact validate_iff_rfc. Qed.
 Print Assumptions C02_validate_iff_rfc_partial.
 
-(* Without uniq_plain the statement for fresh trees is false: unique "p/x" with p a presence container and x with a
-   default: two entries without p are valid (x neither exists nor has a default in use, RFC 7950 7.6.1 / 7.8.3) but
-   lyd_validate_unique takes the schema default and reports data-not-unique. Finding unique-default-not-in-use. *)
-Theorem C02_unique_default_refuted : ~ validate_iff_rfc_fresh_statement.
-Proof. exact unique_default_refuted. Qed.
-Print Assumptions C02_unique_default_refuted.
+(* Regression cases of two fixed findings, as facts about the model of the current code:
+   unique "p/x", p a presence container, x with a default: two entries without p are valid and accepted (ba1198e), two
+   entries with p are rejected with data-not-unique (the default is in use twice);
+   a stale default of a nested default case no longer satisfies the outer mandatory choice (357db45). *)
+Theorem C02_regressions :
+  (vschema_ok w2_schema = true /\ fresh w2_schema w2_tree = true /\ rfc_valid ty_any w2_schema w2_tree = true /\
+   impl_parse_validate w2_schema ty_any w2_tree = VOk /\
+   rfc_valid ty_any w2_schema w2_tree_p = false /\ impl_parse_validate w2_schema ty_any w2_tree_p = VErr ENoUniq) /\
+  (vschema_ok w3_schema = true /\
+   impl_validate w3_schema w3_tree = VErr ENoMandChoice /\ rfc_valid ty_any w3_schema (explicit w3_tree) = false /\
+   rfc_mand_choice w3_schema (explicit w3_tree) = false /\
+   impl_parse_validate w3_schema ty_any (explicit w3_tree) = VErr ENoMandChoice).
+Proof. exact (conj w2_facts w3_facts). Qed.
+Print Assumptions C02_regressions.
 
 (* An error of class e is only reported when the rule (group) of class e is violated ... *)
 Theorem C02_error_sound :
-  forall ty vs f e, vschema_ok vs = true -> uniq_plain vs = true -> fresh vs f = true ->
+  forall ty vs f e, vschema_ok vs = true -> fresh vs f = true ->
     impl_parse_validate vs ty f = VErr e -> class_ok ty vs f e = false.
 Proof. exact error_sound. Qed.
 Print Assumptions C02_error_sound.
@@ -56,7 +58,7 @@ Print Assumptions C02_error_sound.
 (* ... and when exactly one rule class is violated, the reported class is that class; what is reported for it is
    (LY_EVALID, LYVE_DATA, the RFC 7950 section 15 error-app-tag of the class). *)
 Theorem C02_error_class :
-  forall ty vs f e, vschema_ok vs = true -> uniq_plain vs = true -> fresh vs f = true ->
+  forall ty vs f e, vschema_ok vs = true -> fresh vs f = true ->
     class_ok ty vs f e = false -> (forall e', e' <> e -> class_ok ty vs f e' = true) ->
     impl_parse_validate vs ty f = VErr e /\ report e = (7%N, 9%N, apptag e).
 Proof. exact error_class_report. Qed.
@@ -81,7 +83,7 @@ Print Assumptions C02_verdict_perm_invariant.
 
 (* ... and neither does the implementation's verdict on fresh trees. *)
 Theorem C02_impl_verdict_perm_invariant :
-  forall ty vs f g, vschema_ok vs = true -> uniq_plain vs = true -> fresh vs f = true -> permt f g ->
+  forall ty vs f g, vschema_ok vs = true -> fresh vs f = true -> permt f g ->
     (impl_parse_validate vs ty f = VOk <-> impl_parse_validate vs ty g = VOk).
 Proof. exact impl_verdict_permt. Qed.
 Print Assumptions C02_impl_verdict_perm_invariant.
@@ -90,7 +92,7 @@ Print Assumptions C02_impl_verdict_perm_invariant.
    container, mandatory choice, list with key, unique with a default, min/max-elements, leaf-list) and a valid instance;
    one mutation per class yields that class. *)
 Example C02_example :
-  vschema_ok ex_schema = true /\ uniq_plain ex_schema = true /\ fresh ex_schema ex_tree = true /\
+  vschema_ok ex_schema = true /\ fresh ex_schema ex_tree = true /\
   rfc_valid ty_any ex_schema ex_tree = true /\ impl_parse_validate ex_schema ty_any ex_tree = VOk /\
   impl_parse_validate ex_schema ty_any ex_no_mand = VErr ENoMand /\
   impl_parse_validate ex_schema ty_any ex_no_choice = VErr ENoMandChoice /\
